@@ -125,6 +125,25 @@ func judgeScen(r *mon.Run, prop string, s *scen.Scenario, c mon.Case) *scen.Obs 
 		}
 		r.Violate(p.Class, c, "%s", msg)
 	}
+	// every third scenario is also built in two stages with a render in between (hints and references of half of the
+	// paths come after it): same oracle, since no late hint concerns a path the first render showed
+	if c.Index%3 == 2 {
+		if sf := s.BuildStaged(); sf != nil {
+			r.Count("staged_builds", 1)
+			sout, serr, spanic := scen.Render(sf)
+			var so *scen.Obs
+			if serr != "" || spanic != "" {
+				so = &scen.Obs{RenderErr: serr, Panic: spanic}
+			} else {
+				so = s.Observe(sout)
+			}
+			for _, p := range s.Judge(so) {
+				if strings.Contains(p.Props, prop) {
+					r.Violate(p.Class, c, "%s\n(staged build: the odd-numbered paths were hinted and referenced after a first render)\nscenario: %s\noutput:\n%s", p.Msg, s.String(), so.Out)
+				}
+			}
+		}
+	}
 	if r.Verbose {
 		fmt.Printf("scenario: %s\n--- output ---\n%s\n--- problems (all properties) ---\n", s, o.Out)
 		for _, p := range problems {
